@@ -159,7 +159,8 @@ def run(ctx):
     else:
         mc(3, 2, timeout=1500)
         mc(4, 1, timeout=1500)
-        mc(5, 2, ssrc="{1}", timeout=2400)
+        mc(4, 2, ssrc="{1}", timeout=2400)
+        mc(3, 3, ssrc="{1}", timeout=2400)
     # negative control: the budget without rounding to whole words (DESIGN.md / recorder.go before the fix) breaks the bound
     vlib.model_check(ctx, "MC_Rfc8888.tla", vlib.cfg_variant(ctx, "MC_Rfc8888.cfg", {"MaxAdds": 2, "MaxBuilds": 1, "Even": "FALSE"}),
                      expect_violation="Invariant SizeBound is violated")
